@@ -1,19 +1,82 @@
 (* C14 -- Capacity and aggregate accounting equals the sum of live shards and pledges.
 
-   Proved as an invariant of every history: the network-wide totals of pledged capacity and
-   pledged coins equal the sums over all providers (Inv_pool). The per-provider equalities
-   (used capacity, worker bytes and income rate, shard collateral = sums over its live
-   shards) are NOT proved; they are evaluated as monitors on the implementation state after
-   every step (agg.used_is_sum, agg.worker_is_sum, agg.shpledged_is_sum, agg.pool_is_sum).
-   Finding D23 violates them (KNOWN_FINDINGS.txt). *)
-From SaoVerif Require Import Base.Prelude Base.Ints Base.Dec Model.Did Model.Types Model.Monad Model.Bank Model.Select Model.Node Model.Storage Model.Sao Model.Hooks Model.App Model.Spec Proofs.Accumulator.
+   Proved as an invariant of every history: the network-wide totals of pledged capacity and pledged
+   coins equal the sums over all providers (Inv_pool, Proofs/Accumulator.v).
+   Proved per provider (Proofs/Capacity.v): Acc = Inv_used /\ Inv_capacity /\ Live_pledged -- used
+   capacity and shard collateral are the sums over the provider's live shards, 0 <= used <= total,
+   every completed shard is held by a provider with a pledge record -- is preserved by every
+   operation except Terminate (and the force-push branch reached from Complete, and EndBlocks in
+   which an order times out), under hypotheses on the pre-state only (Hyp: NoDup shard lists for
+   Renew, identifier bounds for Store/Ready/Migrate, expiring shards completed and their release
+   funded for EndBlock); lifted to runs (run_acc_partial). Both refutations are consequences of
+   recorded findings: D23 (double release, step_used_refuted_D23) and D13 (a release that fails at
+   expiry is swallowed and the shard removed anyway, step_used_refuted_D13). The uncovered
+   operations and the market worker sums are monitored on implementation states after every step
+   (agg.used_is_sum, agg.shpledged_is_sum, agg.used_bounds, agg.worker_is_sum, agg.pool_is_sum). *)
+From SaoVerif Require Import Base.Prelude Base.Ints Base.Dec Model.Did Model.Types Model.Monad Model.Bank Model.Select Model.Node Model.Storage Model.Sao Model.Hooks Model.App Model.Spec Proofs.Accumulator Model.Inv Proofs.Capacity.
 From RecordUpdate Require Import RecordUpdate.
 Import RecordSetNotations.
 
 Theorem C14_step_inv_pool : forall cx s op, Inv_pool s -> Inv_pool (fst (step cx s op)).
-Proof. exact step_inv_pool. Qed.
+Proof. first [exact step_inv_pool | apply step_inv_pool]. Qed.
 Print Assumptions C14_step_inv_pool.
 
 Theorem C14_run_inv_pool : forall tr s, Inv_pool s -> Inv_pool (run tr s).
-Proof. exact run_inv_pool. Qed.
+Proof. first [exact run_inv_pool | apply run_inv_pool]. Qed.
 Print Assumptions C14_run_inv_pool.
+
+(* per-provider accounting (used capacity and shard collateral are the sums over live shards and 0 <= used <= total) is preserved by every covered operation under the stated pre-state hypotheses *)
+Theorem C14_step_acc_partial : forall cx s op,
+  covered op = true -> Hyp cx s op -> Acc s -> Acc (fst (step cx s op)).
+Proof. first [exact step_acc_partial | apply step_acc_partial]. Qed.
+Print Assumptions C14_step_acc_partial.
+
+Theorem C14_step_used_partial : forall cx s op,
+  covered op = true -> Hyp cx s op -> Inv_used s -> Inv_capacity s -> Live_pledged s ->
+  Inv_used (fst (step cx s op)).
+Proof. first [exact step_used_partial | apply step_used_partial]. Qed.
+Print Assumptions C14_step_used_partial.
+
+Theorem C14_step_capacity_partial : forall cx s op,
+  covered op = true -> Hyp cx s op -> Inv_used s -> Inv_capacity s -> Live_pledged s ->
+  Inv_capacity (fst (step cx s op)).
+Proof. first [exact step_capacity_partial | apply step_capacity_partial]. Qed.
+Print Assumptions C14_step_capacity_partial.
+
+Theorem C14_run_acc_partial : forall tr s, hyp_along tr s -> Acc s -> Acc (run tr s).
+Proof. first [exact run_acc_partial | apply run_acc_partial]. Qed.
+Print Assumptions C14_run_acc_partial.
+
+Theorem C14_run_used_partial : forall tr s, hyp_along tr s -> Inv_used s -> Inv_capacity s -> Live_pledged s ->
+  Inv_used (run tr s) /\ Inv_capacity (run tr s).
+Proof. first [exact run_used_partial | apply run_used_partial]. Qed.
+Print Assumptions C14_run_used_partial.
+
+(* without NoDup shard lists (what D23 destroys) a double release drives used capacity negative *)
+Theorem C14_step_used_refuted_D23 : exists cx s op,
+  Inv_used s /\ Inv_capacity s /\ Live_pledged s /\ Dom s /\ Inv_ids s /\ Inv_shard_order s /\
+  (forall oid o id, orders s !! oid = Some o -> In id (o_shards o) -> is_Some (shards s !! id)) /\
+  ~ Inv_order_shards s /\
+  ~ Inv_used (fst (step cx s op)) /\ ~ Inv_capacity (fst (step cx s op)).
+Proof. first [exact step_used_refuted_D23 | apply step_used_refuted_D23]. Qed.
+Print Assumptions C14_step_used_refuted_D23.
+
+(* a swallowed release failure at expiry (consequence of D13) leaks capacity and collateral for ever *)
+Theorem C14_step_used_refuted_D13 : exists cx s evs,
+  Inv_used s /\ Inv_capacity s /\ Live_pledged s /\ Dom s /\ Inv_ids s /\ Inv_shard_order s /\ Inv_order_shards s /\
+  timeouts s !! cx_height cx = None /\
+  ~ Inv_used (fst (step cx s (OEndBlock evs))).
+Proof. first [exact step_used_refuted_D13 | apply step_used_refuted_D13]. Qed.
+Print Assumptions C14_step_used_refuted_D13.
+
+Theorem C14_capacity_nonvacuous :
+  let s := CapWitness.e_s 5 in
+  Inv_used s /\ Inv_capacity s /\ Live_pledged s /\ Dom s /\ Inv_order_shards s /\
+  (exists sh, shards s !! 2 = Some sh /\ sh_status sh = ShardCompleted /\ live_sum sh_size "A" s = 1) /\
+  Hyp CapWitness.w_cx s (OEndBlock []) /\ Hyp CapWitness.w_cx s (OComplete "A" "A" 1 "cid" 1 true) /\
+  Hyp CapWitness.w_cx s (ORenew {| rn_creator := "A"; rn_provider := "A"; rn_owner := "did:key:K1"; rn_duration := 3600;
+                                   rn_timeout := 10; rn_data := ["d"]; rn_sig := CapWitness.w_sig |}) /\
+  Acc (fst (step CapWitness.w_cx s (OEndBlock []))) /\
+  pledges (fst (step CapWitness.w_cx s (OEndBlock []))) !! "A" = Some (mkPledge 0 0 0 0 10 0).
+Proof. first [exact capacity_nonvacuous | apply capacity_nonvacuous]. Qed.
+Print Assumptions C14_capacity_nonvacuous.
